@@ -56,6 +56,7 @@ type Node struct {
 	F32   bool    // FromGo only: the source was a 32-bit float
 	BigF  *big.Float
 	Prec  uint // FromGo only: the source was a big.Float of this precision
+	Alt   bool // FromGo only: a byte string of a user-defined byte type, which may also travel as a list of integers
 	S     string
 	Bs    []byte
 	T     Time
@@ -671,6 +672,14 @@ func (c *cmp) equal(a, b *Node) bool {
 	}
 	if a.Kind != b.Kind {
 		if c.o.NilIsEmpty && isEmptyish(a) && isEmptyish(b) && (a.Kind == Null || b.Kind == Null) {
+			return true
+		}
+		if a.Kind == Bytes && a.Alt && b.Kind == List && len(b.Elems) == len(a.Bs) {
+			for i, e := range b.Elems {
+				if e.Kind != Int || !e.I.IsInt64() || e.I.Int64() != int64(a.Bs[i]) {
+					return false
+				}
+			}
 			return true
 		}
 		return false
